@@ -91,16 +91,9 @@ impl Judge {
         if let Some(c) = self.canon_cache.get(&key) {
             return c.clone();
         }
-        let c = spawn_child(&detsim::canonical_of(run), false).and_then(|(a, b)| {
-            if !a.ok {
-                Err(format!("target does not compile canonically: {}", a.err))
-            } else if first_diff(&a, &b).is_some() {
-                // even the canonical process disagrees with itself: still a C15 violation, reported by judge()
-                Ok(a)
-            } else {
-                Ok(a)
-            }
-        });
+        // a target that does not compile in the canonical process is still a valid comparison
+        // point: `ok == false` must then hold in every other process too
+        let c = spawn_child(&detsim::canonical_of(run), false).map(|(a, _b)| a);
         self.canon_cache.insert(key, c.clone());
         c
     }
@@ -153,7 +146,14 @@ impl Judge {
             .as_bytes())
         );
         res.trace_hash = fnv(format!("{:?}{:?}", a.d, b.d).as_bytes());
-        let viol = if !a.ok {
+        if !canon.ok && !a.ok {
+            // rejected everywhere (the diagnostics themselves are not what the statement names)
+            res.outcome = Some(Outcome::Skip(format!("target does not compile: {}", canon.err)));
+            return res;
+        }
+        let viol = if !canon.ok {
+            Some(("target-rejected-canonically-but-accepted-here".to_string(), canon.err.clone()))
+        } else if !a.ok {
             Some(("target-compiles-canonically-but-not-here".to_string(), a.err.clone()))
         } else if let Some(k) = first_diff(&canon, &a) {
             Some((format!("differs-from-canonical:{k}"), format!("canonical {:?} here {:?}", canon.d.get(&k), a.d.get(&k))))
